@@ -42,6 +42,17 @@ type c12edits struct {
 	budget int
 	log    []string
 	obs    map[string]bool
+	depth  int // number of list / map-value ancestors of the struct being derived
+	adds   []c12add
+}
+
+// c12add describes where a column was added: inside how many repeated ancestors, and whether the
+// group it was added to keeps a scalar leaf of its own (a sibling at the same repetition level).
+type c12add struct {
+	where    string
+	depth    int
+	sibling  bool
+	optional bool
 }
 
 // derive builds the target type of t by applying edits; where describes the nesting context.
@@ -53,8 +64,12 @@ func (e *c12edits) derive(t reflect.Type, where string) reflect.Type {
 		if t.Elem().Kind() == reflect.Uint8 {
 			return t
 		}
+		e.depth++
+		defer func() { e.depth-- }()
 		return reflect.SliceOf(e.derive(t.Elem(), "list"))
 	case reflect.Map:
+		e.depth++
+		defer func() { e.depth-- }()
 		return reflect.MapOf(t.Key(), e.derive(t.Elem(), "map_value"))
 	case reflect.Struct:
 		if t == timeType {
@@ -92,19 +107,45 @@ func (e *c12edits) derive(t reflect.Type, where string) reflect.Type {
 		nf := reflect.StructField{Name: f.Name, Tag: f.Tag}
 		nf.Type = e.derive(f.Type, map[bool]string{true: "group", false: where}[f.Type.Kind() == reflect.Struct || (f.Type.Kind() == reflect.Ptr && f.Type.Elem().Kind() == reflect.Struct)])
 		if f.Type.Kind() == reflect.Slice && f.Type.Elem().Kind() != reflect.Uint8 {
+			e.depth++
 			nf.Type = reflect.SliceOf(e.derive(f.Type.Elem(), "list"))
+			e.depth--
 		}
 		if f.Type.Kind() == reflect.Map {
+			e.depth++
 			nf.Type = reflect.MapOf(f.Type.Key(), e.derive(f.Type.Elem(), "map_value"))
+			e.depth--
 		}
 		out = append(out, nf)
 	}
 	if e.budget > 0 && e.r.P(30) {
 		e.budget--
 		k := len(e.log)
+		sibling := false
+		for _, kf := range out {
+			kt := kf.Type
+			if kt.Kind() == reflect.Ptr {
+				kt = kt.Elem()
+			}
+			switch kt.Kind() {
+			case reflect.Struct:
+				if kt == timeType {
+					sibling = true
+				}
+			case reflect.Map:
+			case reflect.Slice:
+				if kt.Elem().Kind() == reflect.Uint8 {
+					sibling = true
+				}
+			default:
+				sibling = true
+			}
+		}
+		e.adds = append(e.adds, c12add{where: where, depth: e.depth, sibling: sibling})
 		if e.r.Bool() {
 			out = append(out, reflect.StructField{Name: fmt.Sprintf("AddedOpt%d", k), Type: reflect.TypeOf((*int64)(nil)), Tag: reflect.StructTag(fmt.Sprintf(`parquet:"added_opt_%d"`, k))})
 			e.log = append(e.log, "add optional in "+where)
+			e.adds[len(e.adds)-1].optional = true
 			e.obs["edit_add_optional"] = true
 		} else {
 			typ := gen.Pick(e.r, []reflect.Type{reflect.TypeOf(int64(0)), reflect.TypeOf(""), reflect.TypeOf(float64(0)), reflect.TypeOf(false)})
@@ -230,6 +271,21 @@ func runC12(c *Ctx) {
 		if strings.HasPrefix(l, "add ") && (strings.HasSuffix(l, " in list") || strings.HasSuffix(l, " in map_value")) {
 			keys["added_in_repeated"] = true
 		}
+	}
+	// finer witness keys for the known findings on missing-column materialisation: the deepest
+	// repeated nesting a column was added at, and whether some added column has no scalar sibling
+	maxDepth, lone := 0, false
+	for _, a := range ed.adds {
+		if a.depth > maxDepth {
+			maxDepth = a.depth
+		}
+		if a.depth > 0 && !a.sibling {
+			lone = true
+		}
+	}
+	if maxDepth > 0 {
+		keys["added_rep_depth"] = maxDepth
+		keys["added_without_sibling"] = lone
 	}
 	if len(ed.log) == 0 {
 		c.Trivial()
@@ -421,9 +477,24 @@ func runC12(c *Ctx) {
 		want := project(rows.Index(i), dstType)
 		if ok, diff := eqNorm(want, got.Index(i), ""); !ok {
 			keys["added_column"] = ed.obs["edit_add_required"] || ed.obs["edit_add_optional"]
-			if strings.Contains(diff, ": nil ") {
+			// where the first difference is: at an added column itself, at the nullness of an
+			// enclosing group or list, at a list's length, or at the value of an original column
+			path := diff
+			if i := strings.Index(diff, ": "); i >= 0 {
+				path = diff[:i]
+			}
+			last := path
+			if i := strings.LastIndex(path, "."); i >= 0 {
+				last = path[i+1:]
+			}
+			switch {
+			case strings.HasPrefix(last, "Added"):
+				keys["diff_kind"] = "added_value"
+			case strings.Contains(diff, ": nil "):
 				keys["diff_kind"] = "group_nullness"
-			} else {
+			case strings.Contains(diff, ": len "):
+				keys["diff_kind"] = "list_length"
+			default:
 				keys["diff_kind"] = "value"
 			}
 			c.Fail("c12.projection_mismatch", keys, "row %d read through the target schema differs from the projection of the source row (edits: %s): %s", i, strings.Join(ed.log, "; "), diff)
